@@ -109,4 +109,97 @@ def mon_C01(run):
     return bad
 
 
-MONITORS = {"C01": mon_C01}
+def scripted_panics(run):
+    return {int(r["action"].split()[1]) for r in run.rows
+            if r and r["action"].startswith("step") and r["action"].endswith(" panic")}
+
+
+def mon_C02(run):
+    """no capacity lost (probe at the end of resize-free histories), no stranded waiter,
+    no panic that the script did not inject, no fault"""
+    bad = []
+    panics = scripted_panics(run)
+    probe_results = []
+    for row in run.rows:
+        if row is None:
+            continue
+        d = row["obs"]
+        k = row["k"]
+        woken = parse_list(d["woken"]) or []
+        for i, (lbl, susp) in row["labels"].items():
+            if run.ops[i]["kind"] == "get" and lbl == "get.acquire" and susp and str(i) not in woken:
+                if d["permits"] != "0" or d["closed"] != "0":
+                    bad.append((k, f"get #{i} is blocked and was not woken although permits={d['permits']} closed={d['closed']}"))
+        for e in row["ev"]:
+            name, args = ev_args(e)
+            if name == "oppanic":
+                bad.append((k, f"operation #{args[0]} panicked"))
+            if name == "result" and args[1] == "panicked" and int(args[0]) not in panics:
+                bad.append((k, f"get #{args[0]} panicked without an injected panic"))
+            if name == "result" and row["section"] == "probe":
+                probe_results.append(args[1].split(":")[0])
+        if d.get("fault") != "0":
+            bad.append((k, "fault"))
+        if bad:
+            return bad[:1]
+    if not run.has_resize and not run.has_close and probe_results:
+        want = ["ok"] * min(run.max0, 8) + (["timeout_wait"] if run.max0 < 8 else [])
+        if probe_results != want:
+            last = max(r["k"] for r in run.rows if r)
+            bad.append((last, f"capacity probe after everything was returned: zero-wait gets gave {probe_results}, expected {want}"))
+    return bad[:1]
+
+
+def mon_C11(run):
+    """status(): exact when nothing is in progress, plausible always"""
+    bad = []
+    cur_max = run.max0
+    closed = False
+    prev_labels = {}
+    for row in run.rows:
+        if row is None:
+            continue
+        k, d = row["k"], row["obs"]
+        i = row["op"]
+        # ground truth of max_size: the resize that took the mutex last; close => 0
+        if row["action"].startswith("step") and prev_labels.get(i, ("", False))[0] == "resize.lock":
+            op = run.ops[i]
+            cur_max = 0 if op["kind"] == "close" else int(op["spec"][0])
+        for e in row["ev"]:
+            name, args = ev_args(e)
+            if name == "closed":
+                closed = True
+            if name != "status":
+                continue
+            mx, size, avail, waiting = (int(x) for x in args[1:5])
+            labels = row["labels"]
+            in_get = sum(1 for j, (lbl, _) in labels.items()
+                         if run.ops[j]["kind"] == "get" and lbl not in ("get.enter", "done"))
+            pooled = [x for x in row["live"] if x not in run.discarded_in_hand(row)]
+            if size > len(pooled) + run.creating(row):
+                bad.append((k, f"status.size {size} > {len(pooled)} objects existing + {run.creating(row)} being created"))
+            if avail > size:
+                bad.append((k, f"status.available {avail} > size {size}"))
+            if waiting > in_get:
+                bad.append((k, f"status.waiting {waiting} > {in_get} callers inside get()"))
+            if size > mx and not (run.has_resize or run.has_close):
+                bad.append((k, f"status.size {size} > max_size {mx} without any resize"))
+            if max(mx, size, avail, waiting) > 1 << 40:
+                bad.append((k, "a status counter wrapped around"))
+            woken = parse_list(d["woken"]) or []
+            others = {j: v for j, v in labels.items() if j != i}
+            at_rest = all(lbl == "done" or (run.ops[j]["kind"] == "get" and lbl == "get.acquire" and susp and str(j) not in woken)
+                          for j, (lbl, susp) in others.items())
+            if at_rest:
+                blocked = sum(1 for j, (lbl, _) in others.items() if lbl != "done")
+                idle = row["idle"]
+                want = (cur_max, len(row["live"]), len(idle) if idle is not None else avail, blocked)
+                if (mx, size, avail, waiting) != want:
+                    bad.append((k, f"status() at rest = (max_size {mx}, size {size}, available {avail}, waiting {waiting}) but ground truth is {want}"))
+        prev_labels[i] = (d["lbl"], d["susp"] == "1")
+        if bad:
+            return bad[:1]
+    return bad[:1]
+
+
+MONITORS = {"C01": mon_C01, "C02": mon_C02, "C11": mon_C11}
